@@ -743,17 +743,16 @@ pub fn run(ctx: &mut Ctx) {
                         }
                     }
                     Some(Err(e)) => {
-                        // a v3 signature type the library does not verify at all (refused before hashing) is not a digest matter
-                        if seen.is_empty() {
-                            ctx.tally(&format!("v3cert.refused-before-hashing.{typ:#04x}"), 1);
-                            ctx.note(format!("v3 type {typ:#04x} refused before hashing: {e}"));
-                        } else {
-                            ctx.violation(
-                                format!("C11/verify/v3/reference-signature-rejected/type-{typ:#04x}"),
-                                format!("library rejected a v3 signature built per RFC 5.2.4: {e}; digest seen by the primitive {}, reference digest {}", hex::encode(&seen[0].digest), hex::encode(&want)),
-                                replay.clone(),
-                            );
-                        }
+                        // (a digest that differs from the RFC one is refused at the two check octets, before the primitive)
+                        ctx.violation(
+                            format!("C11/verify/v3/reference-signature-rejected/type-{typ:#04x}"),
+                            format!(
+                                "library rejected a v3 signature built per RFC 5.2.4: {e}; digest seen by the primitive {}, reference digest {}",
+                                seen.first().map(|s| hex::encode(&s.digest)).unwrap_or_else(|| "(primitive not reached)".into()),
+                                hex::encode(&want)
+                            ),
+                            replay.clone(),
+                        );
                     }
                     None => {}
                 }
